@@ -25,6 +25,13 @@ def seeded(seed, n):
             pts.append([x, y])
         if mode == "loop" and pts:
             pts.append(pts[0][:])
+        ox, oy = r.choice([(0, 0), (-grid, -grid), (-3 * grid, 2), (r.randrange(-grid, 1), r.randrange(-grid, 1))])
+        pts = [[x + ox, y + oy] for x, y in pts]                  # anywhere in the plane
+        thrs = [[0, 1], [1, 2], [1, 1], [3, 2], [2, 1], [5, 1], [1, 4]]
+        if grid <= 12:
+            thrs += [[1, 3], [2, 3], [7, 5], [1, 10]]             # thresholds that are not float64 values (ties stay far from rounding)
+        out.append(dict(pts=pts, stride=r.choice([2, 3, 4, 5]), fill=r.choice(["", "", "next", "prev"]), thr=r.choice(thrs)))
+        continue
         out.append(dict(pts=pts, stride=r.choice([2, 3, 4, 5]), fill=r.choice(["", "", "next", "prev"]), thr=r.choice([[0, 1], [1, 2], [1, 1], [3, 2], [2, 1], [5, 1], [1, 4]])))
     return out
 
